@@ -34,9 +34,9 @@ def cases(draw):
     ops = []
     n_ops = draw(st.integers(2, 6))
     for i in range(n_ops):
-        k = draw(st.sampled_from(["advance", "save", "both", "both"])) if i else draw(st.sampled_from(["advance", "save"]))
+        k = draw(st.sampled_from(["advance", "save", "both", "both"])) if i else draw(st.sampled_from(["advance", "advance", "save"]))
         if k == "advance":
-            m = draw(st.sampled_from([0, 1, 2, 3, 5])) if ens else draw(st.sampled_from([0, 1, 5, 14, 16, 40, 99, 101, 125]))
+            m = draw(st.sampled_from([0, 1, 2, 3, 5])) if ens else draw(st.sampled_from([0, 5, 14, 16, 99, 101, 125, 140] if i == 0 else [0, 1, 5, 14, 16, 40, 99, 101, 125]))
             ops.append({"op": k, "m": m})
         elif k == "both":
             m = draw(st.sampled_from([0, 2, 3, 5])) if ens else draw(st.sampled_from([0, 1, 20, 25, 40, 101]))
